@@ -4,20 +4,23 @@
 (* direction A).  Records, in the order the calls happened:                *)
 (*                                                                         *)
 (*  [op |-> "sa_open", nmax, file]      spatial_average opened a neighbour *)
-(*        file whose frames are file[f][i] = listed ids of particle i      *)
-(*  [op |-> "sa_frame", prop, obs, exact]  frame of the same call:         *)
-(*        prop[i][c] integer property, obs[i][c] the returned average      *)
-(*        (an integer: the inputs are multiples of 840), exact = 1 iff the *)
-(*        returned floats were integers to 1e-7.  The cursor of the open   *)
-(*        handle is a variable of this spec, not a field of the record.    *)
+(*        file whose frames are file[f][k] = <<id, n1, n2, ..>>, the k-th  *)
+(*        row as written (rows in any order; the id column decides)        *)
+(*  [op |-> "sa_frame", prop, obs, oscale, exact]  frame of the same call: *)
+(*        prop[i][c] integer property, obs[i][c] = oscale * the returned   *)
+(*        average (an integer: the inputs are multiples of 840 and 1 + the *)
+(*        delivered count divides 840, or oscale = 840 for 0/1 flags),     *)
+(*        exact = 1 iff the scaled floats were integers to 1e-7.  The      *)
+(*        cursor of the open handle is a variable of this spec, not a      *)
+(*        field of the record.                                             *)
 (*  [op |-> "grid", ng, bounds, M, obs, exact]  grid positions returned by *)
 (*        gaussian_blurring for one frame, slot by slot, in units 1/M      *)
 (*        of the (integer, scaled) bounds                                  *)
 (*  [op |-> "blur", id, ng, bounds, S, H, ppp, pos, sig, cut]  one frame   *)
 (*        of a gaussian_blurring call on scaled-integer inputs (unit 1/S); *)
 (*        the expected slot values are printed as Real terms               *)
-(*  [op |-> "window", T, ts, dt, period, prop, rows, centre, obs, exact]   *)
-(*        one time_average call                                            *)
+(*  [op |-> "window", T, ts, dt, period, prop, rows, centre, obs, oscale,  *)
+(*        exact]  one time_average call (obs = oscale * returned means)    *)
 (* A record is consumed iff Why(rec) = ""; otherwise bad names the clause. *)
 (***************************************************************************)
 EXTENDS CoarseGrain, TLC, Json, IOUtils
@@ -31,7 +34,12 @@ vars == <<l, bad, file, cursor>>
 MatchesFrame(rec, nb) ==
   LET e == SpatialAvgFrame(rec.prop, nb, rec.nmax) IN
   \A i \in 1..Len(rec.prop) : \A c \in 1..Len(rec.prop[i]) :
-     e[i][c][2] = 1 /\ e[i][c][1] = rec.obs[i][c]
+     e[i][c][1] * rec.oscale = rec.obs[i][c] * e[i][c][2]
+\* a frame of rows is well formed: one row per particle, the id column a permutation of the ids,
+\* listed ids are ids
+RowsOk(rows) ==
+  /\ CgIsPerm([k \in 1..Len(rows) |-> rows[k][1]], Len(rows))
+  /\ \A k \in 1..Len(rows) : \A x \in 2..Len(rows[k]) : rows[k][x] \in 1..Len(rows)
 WhyFrame(rec) ==
   IF cursor >= Len(file) THEN "NeighbourFrameCursor:file-exhausted"
   ELSE IF rec.exact # 1 THEN "SpatialMean"
@@ -71,12 +79,12 @@ WhyWindow(rec) ==
   ELSE IF \E n \in 0..(rec.rows - 1) : rec.centre[n + 1] \notin CentreSet(n, w) THEN "WindowCentre"
   ELSE IF rec.exact # 1 THEN "WindowMean"
   ELSE IF \E n \in 0..(rec.rows - 1) : \E i \in 1..Len(rec.prop[1]) : \E c \in 1..Len(rec.prop[1][i]) :
-            LET m == WindowMean(rec.prop, n, w, i, c) IN m[2] # 1 \/ m[1] # rec.obs[n + 1][i][c]
+            LET m == WindowMean(rec.prop, n, w, i, c) IN m[1] * rec.oscale # rec.obs[n + 1][i][c] * m[2]
        THEN "WindowMean"
   ELSE ""
 
 Why(rec) ==
-  CASE rec.op = "sa_open"  -> ""
+  CASE rec.op = "sa_open"  -> IF \A f \in 1..Len(rec.file) : RowsOk(rec.file[f]) THEN "" ELSE "WellFormed"
     [] rec.op = "sa_frame" -> WhyFrame(rec)
     [] rec.op = "grid"     -> WhyGrid(rec)
     [] rec.op = "blur"     -> ""
@@ -89,7 +97,8 @@ Step ==
   /\ LET rec == Tr[l]
          w   == Why(rec)
      IN  /\ IF w = "" THEN l' = l + 1 /\ bad' = "" ELSE l' = l /\ bad' = w
-         /\ IF rec.op = "sa_open" THEN file' = rec.file /\ cursor' = 0
+         /\ IF rec.op = "sa_open" /\ w = ""      \* the handle holds the lists filed under their ids
+            THEN file' = [f \in 1..Len(rec.file) |-> CgOfRows(rec.file[f])] /\ cursor' = 0
             ELSE IF rec.op = "sa_frame" /\ w = "" THEN cursor' = cursor + 1 /\ UNCHANGED file
             ELSE UNCHANGED <<file, cursor>>
          /\ (rec.op = "blur" => PrintT(ToJson([rec |-> rec.id, exp |-> BlurExpect(rec)])))
